@@ -30,7 +30,7 @@ CHUNK = 40
 TRACE = ("modeling/model.py", "sdsimulation/sd_simulation.py")
 CRITICAL = ("memoize",)
 INTERLEAVING_MEASURE = "distinct sequences of (task, memoize entry) during SdSimulation.start"
-RULE = ("a run is either (a) an edit/evaluate/run/reset history of 4-20 operations over a 7-element model, checked "
+RULE = ("a run is either (a) an edit/evaluate/run/reset history of 4-20 operations over an 8-element model (constants, converters, flow, biflow, stocks), checked "
         "after every operation against a model rebuilt from scratch, or (b) one SdSimulation.start over a random "
         "subset/order of [a,b,r,s] with unique-valued r, under a random(p)/pct(d)/single-pre-emption schedule of the "
         "per-equation worker threads; non-trivial = (a) the history contains an edit after a dependent element was "
@@ -47,8 +47,8 @@ PROBES = ["edit_after_dependant_read", "initial_value_edit", "preempted_between_
           "run_repeated", "scenario_reset_cache"]
 EXHAUSTIVE = {"quick": False, "thorough": False}
 
-ELEMS = ["k1", "k2", "c1", "c2", "f1", "s1", "s2"]
-NTPL = {"c1": 3, "c2": 3, "f1": 3, "s1": 2, "s2": 2}
+ELEMS = ["k1", "k2", "c1", "c2", "f1", "b1", "s1", "s2"]
+NTPL = {"c1": 3, "c2": 3, "f1": 3, "b1": 3, "s1": 3, "s2": 3}
 INIT_CHOICES = [0.0, 2.0, 100.0, "k1", "k2"]
 
 
@@ -56,6 +56,7 @@ def _eq(m, name, idx):
     k1, k2 = m.constants["k1"], m.constants["k2"]
     c1, c2 = m.converters["c1"], m.converters["c2"]
     f1 = m.flows["f1"]
+    b1 = m.biflows["b1"]
     s1, s2 = m.stocks["s1"], m.stocks["s2"]
     if name == "c1":
         return [k1 * 2.0, k1 + k2, s1 * 0.5][idx]
@@ -63,14 +64,16 @@ def _eq(m, name, idx):
         return [c1 + 1.0, k2 * 3.0, s2 - k1][idx]
     if name == "f1":
         return [k1 * 1.0, c1 * 1.0, c2 * 0.5][idx]
+    if name == "b1":
+        return [k2 - c1, c1 * -1.0, k1 - k2][idx]
     if name == "s1":
-        return [f1 * 1.0, f1 - c2][idx]
+        return [f1 * 1.0, f1 - c2, f1 + b1][idx]
     if name == "s2":
-        return [c1 * 1.0, k2 * 1.0][idx]
+        return [c1 * 1.0, k2 * 1.0, b1 * 1.0][idx]
     raise ValueError(name)
 
 
-DEFS0 = {"k1": 1.0, "k2": 0.5, "c1": 0, "c2": 0, "f1": 0, "s1": 0, "s2": 0, "s1_init": 0.0, "s2_init": 2.0}
+DEFS0 = {"k1": 1.0, "k2": 0.5, "c1": 0, "c2": 0, "f1": 0, "b1": 0, "s1": 0, "s2": 2, "s1_init": 0.0, "s2_init": 2.0}
 
 
 def build(defs, start, stop, dt):
@@ -81,12 +84,13 @@ def build(defs, start, stop, dt):
     for n in ("c1", "c2"):
         m.converter(n)
     m.flow("f1")
+    m.biflow("b1")
     for n in ("s1", "s2"):
         m.stock(n)
     m.constants["k1"].equation = float(defs["k1"])
     m.constants["k2"].equation = float(defs["k2"])
-    for n in ("c1", "c2", "f1"):
-        (m.converters if n.startswith("c") else m.flows)[n].equation = _eq(m, n, defs[n])
+    for n in ("c1", "c2", "f1", "b1"):
+        (m.converters if n.startswith("c") else m.flows if n == "f1" else m.biflows)[n].equation = _eq(m, n, defs[n])
     for n in ("s1", "s2"):
         iv = defs[n + "_init"]
         m.stocks[n].initial_value = m.constants[iv] if isinstance(iv, str) else float(iv)
@@ -158,7 +162,7 @@ def generate(spec):
     for _ in range(rng.randint(4, 20)):
         r = rng.random()
         if r < 0.22:
-            n = rng.choice(["c1", "c2", "f1", "s1", "s2"])
+            n = rng.choice(["c1", "c2", "f1", "b1", "s1", "s2"])
             ops.append({"op": "set_equation", "elem": n, "idx": rng.randrange(NTPL[n])})
         elif r < 0.36:
             ops.append({"op": "set_initial", "elem": rng.choice(["s1", "s2"]), "value": rng.choice(INIT_CHOICES)})
@@ -271,7 +275,7 @@ def _execute_edit(case):
     pol = make_policy(case.get("sched") or {"kind": "default"})
 
     def elem(m, n):
-        for d in (m.constants, m.converters, m.flows, m.stocks):
+        for d in (m.constants, m.converters, m.flows, m.biflows, m.stocks):
             if n in d:
                 return d[n]
         raise KeyError(n)
